@@ -24,6 +24,9 @@ func genC19(r *Rng, k int, tier string) *RunSpec {
 	st.W.Tx = tx
 	var reqs []ReqSpec
 	nreq := 1 + r.Intn(3)
+	if r.Intn(6) == 0 {
+		nreq = 3 + r.Intn(3) // a longer history on one transport value
+	}
 	fate := func() string {
 		switch x := r.Intn(20); {
 		case x < 9:
@@ -210,6 +213,9 @@ func oracleC19(c *DriveCtx, res *Result) {
 			}
 			if t.Err == nil && !strings.Contains(body, "\"type\":\"Note\"") {
 				s.violate("C19", "dereference-body", "Dereference", "successful Dereference did not return the response body")
+			}
+			if t.Err == nil && string(t.Held) != body {
+				s.violate("C19", "dereference-body-changed-later", "Dereference", fmt.Sprintf("the body Dereference returned for %s read %q when it was returned and %q when the run was over (shared with a later call)", t.Req.Recipients[0], trunc(body, 80), trunc(string(t.Held), 80)))
 			}
 			if fate != "status:200" && fate != "short" && body != "" {
 				s.violate("C19", "dereference-body-on-failure", "Dereference", fmt.Sprintf("Dereference returned a body for response %q", fate))
